@@ -10,6 +10,8 @@ real state file) driven one model step at a time along schedules chosen by the e
   check_observed(...)   svdriver check: every differing observation per schedule + ghost facts of the model's own run
   oracle_C05/06/09/11   the properties' own oracles, written from the property texts, evaluated on the REAL traces
                         (they do not read the model's output)
+  selftest_oracle(...)  the same oracles evaluated on the observations the proved model predicts for the same schedules:
+                        a rejection outside the known-finding signatures means the oracle is wrong
   run_property(ctx, prop, tier=None)
 
     python3 -m lib.svtie [--tier quick|thorough] [--prop C05,C06,C09,C11] [--seed N] [--scenario id,...] [--replay file.json]
@@ -542,7 +544,9 @@ class Run:
         return out
 
 
-def parse_observed(path):
+def parse_observed(path, model=False):
+    """observed.txt of the harness -> {sid: Run}. model=True: `path` is a schedule file written by `svdriver gen` / `svdriver expand`, whose X blocks
+    are the observations the MODEL predicts after every item; it is rendered into the same Run objects (see render_model)."""
     runs, cur, blk = {}, None, None
     try:
         text = Path(path).read_text()
@@ -553,6 +557,8 @@ def parse_observed(path):
         f = line.split()
         if not f:
             continue
+        if model and (f[0] == "STAT" or (f[0] == "G" and (len(f) < 2 or not f[1].isdigit()))):
+            continue    # statistics / ghost facts of the driver (a listing line is "G <count> ...")
         if f[0] == "S" and len(f) >= 2:
             cur = Run(f[1])
             runs[f[1]] = cur
@@ -617,6 +623,8 @@ def parse_observed(path):
                 cur = None
         except (ValueError, IndexError):
             pass
+    if model:
+        render_model(runs)
     for r in runs.values():
         for b in r.blocks:
             for im in b.imgs:
@@ -624,6 +632,54 @@ def parse_observed(path):
                     im[2] = "2" if b.filebad else ("1" if b.file is not None else "0")
                     im[3] = b.file
     return runs
+
+
+def render_model(runs):
+    """Completes Run objects parsed from the model's predicted observations with what the harness adds on the real side, so that the
+    property oracles can judge them unchanged:
+      - the goroutines the server starts itself (lease callbacks, DestroySession, the closer) are those the model spawns: the spawn
+        annotations of the items (real side: the harness's `M thr` lines),
+      - the state file a kill after item k leaves is the model's v_file after item k: one 'post' image per block (no raw bytes: the
+        load test of the image is not part of a model trace),
+      - responses, lock table, timer map, session table, listing, clock and the step log (the label a `run` item releases its thread
+        from) are read from the blocks exactly as for a real trace.
+    A model trace is complete when no thread is left parked at a yield point (corpus schedules may stop earlier; the real run is then
+    completed by the harness, the model's is not)."""
+    for r in runs.values():
+        for _k, _tag, it in r.items:
+            for tid, kind, a, b in it.get("spawn", []):
+                r.sys[tid] = (kind, a, b)
+        for b in r.blocks:
+            b.imgs = [["model-%d" % b.k, "post", None, None]]
+        last = r.blocks[-1] if r.blocks else None
+        r.complete = bool(r.complete and last is not None and all(st[0] in ("F", "E", "B") for st in last.thr.values()))
+
+
+def selftest_oracle(prop, sched_files):
+    """ORACLE SELF-TEST. Msv is proved to satisfy C05/C06/C09/C11 on every schedule (Proofs/SvAll.v) except for the recorded findings
+    F-LEAK and F-OVER, so the Python oracle of `prop`, evaluated on the observations the MODEL predicts for the schedules that were run,
+    must accept every one of them or name a known-finding signature; anything else means that the oracle (or this rendering) is wrong.
+    -> dict(judged, failures=[(sid, idx, text, Run)], known=n, incomplete=n)"""
+    oracle = ORACLES[prop]
+    judged = known = incomplete = 0
+    failures = []
+    for f_ in sched_files:
+        if f_ is None:
+            continue
+        for sid, run in sorted(parse_observed(f_, model=True).items()):
+            if not run.blocks:
+                continue
+            judged += 1
+            if not run.complete:
+                incomplete += 1
+            hit_known = False
+            for idx, text, fid in oracle(run, {}):
+                if fid is not None and fid == KNOWN_OF.get(prop):
+                    hit_known = True
+                else:
+                    failures.append((sid, idx, text, run))
+            known += 1 if hit_known else 0
+    return dict(judged=judged, failures=failures, known=known, incomplete=incomplete)
 
 
 def load_images(dirs):
@@ -1131,6 +1187,24 @@ def run_property(ctx, prop, tier=None, scenarios=None, procs=8):
         runs.update(xr)
         chk.update(xc)
 
+    # oracle self-test on the model's own predicted observations of the same schedules (corpus + generated)
+    try:
+        stt = selftest_oracle(prop, [cf, sf])
+    except Exception as ex:  # noqa
+        stt = dict(judged=0, failures=[("?", -1, "self-test crashed: %r" % (ex,), None)], known=0, incomplete=0)
+    tie["oracle_selftest"] = {"model_traces_judged": stt["judged"], "failures": len(set(x[0] for x in stt["failures"])),
+                              "known_finding_matches": stt["known"], "model_traces_incomplete": stt["incomplete"]}
+    if stt["failures"]:
+        sid, idx, text, mrun = stt["failures"][0]
+        ctx.violation({"broken": "oracle self-test", "property": prop, "schedule": sid, "item": idx, "oracle_says": text,
+                       "rejected_model_traces": len(set(x[0] for x in stt["failures"])), "model_traces_judged": stt["judged"],
+                       "items": [dec_item(it["raw"].split()) for _k, _t, it in mrun.items] if mrun is not None else [],
+                       "noclear": mrun.noclear if mrun is not None else None, "model_trace": mrun.raw[:600] if mrun is not None else [],
+                       "why": "Msv is proved to satisfy %s on every schedule (Proofs/SvAll.v) outside the recorded findings: the oracle or its rendering of the "
+                              "model trace is wrong; nothing may be concluded from this run" % prop},
+                      "oracle self-test: the Python oracle of %s rejects a trace of the proved model (schedule %s item %d: %s)" % (prop, sid, idx, text[:300]),
+                      name="t2sv_oracle_selftest_%s.json" % _fname(sid), no_failing_input=True)
+
     reported = 0
     seen_text = set()
     for sid, idx, text in j["violations"]:
@@ -1257,6 +1331,7 @@ def main(argv=None):
               % (p, tie["schedules_executed_on_real_code"], tie["items"], tie["distinct_schedules"], tie["exhibit_runs"], tie["crash_images_distinct"], tie["wall_s"],
                  tie["mismatches_in_projection"], tie["schedules_differing_outside_projection"], tie["schedules_failing_oracle"], tie["known_finding_reproductions"],
                  tie["hangs_or_fatal"], tie["model_labels_never_reached"], tie["yield_points_missing"], tie["sentinels_placed"]))
+        print("    oracle self-test on the model's traces: %s" % json.dumps(tie.get("oracle_selftest")))
     for fid, text in ctx.known:
         print("KNOWN-FINDING:", fid, text)
     for path, text, nfi in ctx.violations:
